@@ -53,25 +53,15 @@ ViewIdeal(v, tree) == Accepted(v) /\ HasProj(v) /\ "errs" \notin DOMAIN v.proj /
 (* in Open.                                                                *)
 (***************************************************************************)
 
-\* "no-line-end-normalization": 2.11 is not applied - the tree the implementation builds is the
-\* one the machine would build if literal CR were an ordinary character in content (CR LF stays
-\* CR LF).  As-is tree: re-run the machine on the tokens with every literal CR of content marked
-\* as a character reference (which the machine passes through unchanged).
-CrAsRef(items) == [i \in 1..Len(items) |-> IF items[i].t = "c" /\ items[i].c = 13 THEN RI(13) ELSE items[i]]
-NoEolTok(t) ==
-  CASE t.k = "text" -> [t EXCEPT !.items = CrAsRef(@)]
-    [] t.k = "ws" -> [k |-> "text", items |-> [i \in 1..Len(t.v) |-> IF t.v[i] = 13 THEN RI(13) ELSE CI(t.v[i])]]
-    [] t.k = "cdata" -> [k |-> "text", items |-> [i \in 1..Len(t.v) |-> RI(t.v[i])]]
-    [] OTHER -> t
-HasContentCr(toks) ==
+\* "no-line-end-normalization": 2.11 is not applied to content, comments and PI data (CR stays
+\* CR, CR LF stays CR LF).  As-is machine: the same token machine with its line-end handling
+\* switched off (state field eol = FALSE).  Attribute values are not affected (3.3.3 turns a
+\* literal CR into a space either way).
+NoEolInit == [InitState EXCEPT !.eol = FALSE]
+HasLiteralCr(toks) ==
   \E i \in 1..Len(toks) :
      \/ (toks[i].k = "text" /\ \E j \in 1..Len(toks[i].items) : toks[i].items[j].t = "c" /\ toks[i].items[j].c = 13)
-     \/ (toks[i].k \in {"ws", "cdata"} /\ 13 \in Range(toks[i].v))
-
-\* the ws token only turns into text inside content; outside it must stay S
-NoEolToks(toks) ==
-  LET depth(i) == Cardinality({ j \in 1..(i-1) : toks[j].k = "stag" }) - Cardinality({ j \in 1..(i-1) : toks[j].k = "etag" })
-  IN [i \in 1..Len(toks) |-> IF toks[i].k = "ws" /\ depth(i) <= 0 THEN toks[i] ELSE NoEolTok(toks[i])]
+     \/ (toks[i].k \in {"ws", "cdata", "comment", "pi"} /\ 13 \in Range(toks[i].v))
 
 \* "required-attribute-materialized": an attribute declared #REQUIRED that is not written appears
 \* all the same, with the empty value and specified = false (pinned by the repository's own test
@@ -85,21 +75,22 @@ RequiredExtra(attlists, el, present) ==
          an \in { x \in names : /\ BindingDef(attlists, el, x).dk = "REQUIRED"
                                /\ ~IsNsAttrName(x)
                                /\ ~\E a \in present : a.n = x } }
-RequiredTree(toks) ==
-  LET st == Fold(InitState, toks)
+RequiredTree(init, toks) ==
+  LET st == Fold(init, toks)
       ns == st.tree.nodes
   IN [st.tree EXCEPT !.nodes =
         [i \in 1..Len(ns) |-> IF ns[i].k = "elem"
                               THEN [ns[i] EXCEPT !.a = @ \cup RequiredExtra(st.attlists, ns[i].n, ns[i].a)]
                               ELSE ns[i]]]
 
-AsIsTreeC01(name, e) ==
-  CASE name = "no-line-end-normalization" -> Recognize(NoEolToks(e.toks)).tree
-    [] name = "required-attribute-materialized" -> RequiredTree(e.toks)
-    [] OTHER -> Recognize(e.toks).tree
+\* as-is models compose: S is a set of open findings that all apply to the document
+AsIsTreeC01(S, e) ==
+  LET init == IF "no-line-end-normalization" \in S THEN NoEolInit ELSE InitState
+  IN IF "required-attribute-materialized" \in S THEN RequiredTree(init, e.toks)
+     ELSE RecognizeFrom(init, e.toks).tree
 
 AsIsAppliesC01(name, e) ==
-  CASE name = "no-line-end-normalization" -> HasContentCr(e.toks)
+  CASE name = "no-line-end-normalization" -> HasLiteralCr(e.toks)
     [] name = "required-attribute-materialized" -> HasRequired(e.toks)
     [] OTHER -> FALSE
 
@@ -108,10 +99,11 @@ C01Names == {"no-line-end-normalization", "required-attribute-materialized"}
 C01Verdict(e, rec) ==
   IF ~(rec.wf /\ rec.inprofile) THEN [verdict |-> "ok"]
   ELSE IF ViewIdeal(e.raw, rec.tree) /\ ViewIdeal(e.merged, rec.tree) THEN [verdict |-> "ok"]
-  ELSE LET m == { n \in C01Names \cap Open :
-                    /\ AsIsAppliesC01(n, e)
-                    /\ ViewIdeal(e.raw, AsIsTreeC01(n, e)) /\ ViewIdeal(e.merged, AsIsTreeC01(n, e)) }
-       IN IF m # {} THEN [verdict |-> CHOOSE n \in m : TRUE]
+  ELSE LET app == { n \in C01Names \cap Open : AsIsAppliesC01(n, e) }
+           m == { S \in (SUBSET app) \ {{}} :
+                    ViewIdeal(e.raw, AsIsTreeC01(S, e)) /\ ViewIdeal(e.merged, AsIsTreeC01(S, e)) }
+       IN IF m # {} THEN LET S == CHOOSE S \in m : \A T \in m : Cardinality(S) <= Cardinality(T)
+                         IN [verdict |-> CHOOSE n \in S : TRUE, findings |-> S]
           ELSE [verdict |-> "VIOLATION",
                 why |-> IF ~Accepted(e.raw) \/ ~Accepted(e.merged)
                         THEN "well-formed document of the profile not accepted (or input left over)"
@@ -184,10 +176,28 @@ Verdict(e) ==
                [] Prop = "C02" -> C02Verdict(e, rec)
                [] Prop = "C04" -> C04Verdict(e, rec)
 
+(***************************************************************************)
+(* Render mode (Prop = "RENDER"): the events are token sequences + styles  *)
+(* produced by the harness's random writer / token editor (doc-record).    *)
+(* The specification decides what they are: well-formed or not (and why),  *)
+(* what they denote, and how they are written as text - and prints the     *)
+(* same REPLAY record the model checker prints for its own behaviours.     *)
+(* Sequences the surface syntax cannot write faithfully are skipped.       *)
+(***************************************************************************)
+RenderOut(e, i) ==
+  IF ~StyleOK(e.style) \/ e.toks = <<>> \/ (\E j \in 1..Len(e.toks) : ~TokenSane(e.toks[j]))
+     \/ e.toks[Len(e.toks)].k # "end"
+  THEN PrintT(<<"INSANE", i>>)
+  ELSE LET rec == Recognize(e.toks)
+       IN PrintT(<<"REPLAY", ToJson([toks |-> e.toks, style |-> e.style, text |-> Render(e.toks, e.style),
+                                     wf |-> rec.wf, viol |-> rec.viol, inprofile |-> rec.inprofile,
+                                     tree |-> rec.tree])>>)
+
 Init == l = 1
 Next == /\ l <= Len(Rec)
-        /\ LET v == Verdict(Rec[l])
-           IN  IF v.verdict = "ok" THEN TRUE ELSE PrintT(<<"VERDICT", ToJson([i |-> l] @@ v)>>)
+        /\ IF Prop = "RENDER" THEN RenderOut(Rec[l], l)
+           ELSE LET v == Verdict(Rec[l])
+                IN  IF v.verdict = "ok" THEN TRUE ELSE PrintT(<<"VERDICT", ToJson([i |-> l] @@ v)>>)
         /\ l' = l + 1
 Spec == Init /\ [][Next]_l
 
